@@ -382,6 +382,23 @@ fn op_brief(op: &Op) -> String {
 }
 
 /// the first caret line is the offending stored line as LIST renders it (minus the number prefix)
+/// between two host calls no evaluation is in progress: a residual nesting depth means every later
+/// expression has less room before the OUT OF MEMORY guard fires (a creeping wedge)
+fn no_residual_nesting(s: &Sess, op: &Op) -> Option<Violation> {
+    if s.poisoned {
+        return None;
+    }
+    let d = s.probe(false).nesting_depth;
+    if d != 0 {
+        return Some(Violation::new(
+            "C01/residual-nesting-depth",
+            "nesting depth not 0 between host calls".to_string(),
+            format!("after {} the evaluator's nesting depth is {d}: later lines lose that much room before OUT OF MEMORY", op_brief(op)),
+        ));
+    }
+    None
+}
+
 fn caret_matches_listing(s: &mut Sess, call: &Call, ctx: &mut Ctx) -> Option<Violation> {
     let e = call.err()?;
     let n = e.line?;
@@ -566,6 +583,10 @@ impl Prop for C01 {
                 violation = Some(v);
                 break;
             }
+            if let Some(v) = no_residual_nesting(&s, &op) {
+                violation = Some(v);
+                break;
+            }
             m.since_canary += 1;
             if m.since_canary >= 16 && s.state() == St::Idle {
                 m.since_canary = 0;
@@ -602,6 +623,9 @@ impl Prop for C01 {
                 return Some(v);
             }
             if let Some(v) = caret_matches_listing(&mut s, &call, ctx) {
+                return Some(v);
+            }
+            if let Some(v) = no_residual_nesting(&s, op) {
                 return Some(v);
             }
             m.since_canary += 1;
